@@ -177,6 +177,19 @@ fn generate(entry: &str, ir: &Path, cfg: &Cfg, seed: u64, work: &Path, tag: &str
     std::fs::create_dir_all(&cwd).unwrap();
     std::fs::create_dir_all(out.parent().unwrap()).unwrap();
     let probe_file = work.join(format!("probe-{}-{}-s{}", tag, entry, seed));
+    // the definition itself is reached through a different path each time (its own copy in a
+    // fresh directory; an absolute path for even seeds, one relative to the cwd for odd ones)
+    let ir_dir = work.join(format!("ir-{}-{}-s{}", tag, entry, seed)).join("d".repeat((seed % 3) as usize + 1));
+    std::fs::create_dir_all(&ir_dir).unwrap();
+    let ir_copy = ir_dir.join(format!("definition-{}.json", seed));
+    std::fs::copy(ir, &ir_copy).unwrap();
+    let ir_arg: PathBuf = if seed % 2 == 0 {
+        ir_copy.clone()
+    } else {
+        // cwd = <work>/cwd-...; the copy = <work>/ir-.../d../definition-N.json
+        PathBuf::from("..").join(ir_copy.strip_prefix(work).unwrap())
+    };
+    let ir = &ir_arg;
     let (exe, mut argv): (String, Vec<String>) = if entry == "cli" {
         let mut a = vec!["generate".to_string()];
         a.extend(cfg.cli_flags());
